@@ -573,6 +573,16 @@ func TestC09Values(t *testing.T) {
 			}
 			mem = ebu.NewMemoryStore()
 			bus = ebu.New(ebu.WithStore(mem))
+			if (i/500)%2 == 1 {
+				// upcasters for the published types are already registered (a service that also reads old
+				// data): what it publishes is still recorded as published
+				for _, name := range []string{ebu.EventType(nested{}), ebu.EventType(&nested{}), ebu.EventType(named{}), ebu.EventType(custom{}), ebu.EventType(strEv("")), "c09.versioned.v1", "c09.versioned.v2"} {
+					to := name + ".next"
+					ebu.RegisterUpcastFunc(bus, name, to, func(d json.RawMessage) (json.RawMessage, string, error) {
+						return json.RawMessage(`{"migrated":true}`), to, nil
+					})
+				}
+			}
 		}
 		switch i % 10 {
 		case 0, 1, 2:
@@ -625,6 +635,82 @@ func TestC09Values(t *testing.T) {
 		}
 	}
 	readersLeaveRecords(run, bus, mem)
+	retainingStore(run)
+}
+
+// retaining is a write-behind store: Append queues the *Event it is handed (the interface says
+// nothing about whose it is afterwards) and the queue is written out when somebody reads.
+type retaining struct {
+	mu    sync.Mutex
+	queue []*ebu.Event
+}
+
+func (s *retaining) Append(_ context.Context, e *ebu.Event) (ebu.Offset, error) {
+	s.mu.Lock()
+	defer s.mu.Unlock()
+	s.queue = append(s.queue, e)
+	return ebu.Offset(fmt.Sprintf("%020d", len(s.queue))), nil
+}
+
+func (s *retaining) Read(_ context.Context, from ebu.Offset, limit int) ([]*ebu.StoredEvent, ebu.Offset, error) {
+	s.mu.Lock()
+	defer s.mu.Unlock()
+	var out []*ebu.StoredEvent
+	last := from
+	for i, e := range s.queue {
+		off := ebu.Offset(fmt.Sprintf("%020d", i+1))
+		if off <= from {
+			continue
+		}
+		out = append(out, &ebu.StoredEvent{Offset: off, Type: e.Type, Data: e.Data, Timestamp: e.Timestamp})
+		last = off
+		if limit > 0 && len(out) == limit {
+			break
+		}
+	}
+	return out, last, nil
+}
+
+// retainingStore: every publish hands the store a record of its own - one that still says what was
+// published when the store gets round to writing it.
+func retainingStore(run *vk.Run) {
+	st := &retaining{}
+	bus := ebu.New(ebu.WithStore(st))
+	type want struct{ typ, data string }
+	var wants []want
+	pub := func(typ string, v any, publish func()) {
+		b, _ := json.Marshal(v)
+		wants = append(wants, want{typ, string(b)})
+		publish()
+	}
+	for k := 0; k < 12; k++ {
+		switch k % 4 {
+		case 0:
+			v := named{ID: k}
+			pub(ebu.EventType(v), v, func() { ebu.Publish(bus, v) })
+		case 1:
+			v := ev{ID: k, S: "q"}
+			pub(ebu.EventType(v), v, func() { ebu.Publish(bus, v) })
+		case 2:
+			v := versioned{ID: k, V: 1 + k%3}
+			pub(ebu.EventType(v), v, func() { ebu.Publish(bus, v) })
+		default:
+			v := &ptrNamed{ID: k}
+			pub(ebu.EventType(v), v, func() { ebu.Publish(bus, v) })
+		}
+	}
+	recs, _, _ := st.Read(context.Background(), ebu.OffsetOldest, 0)
+	if len(recs) != len(wants) {
+		run.Violation("record:count", fmt.Sprintf("a write-behind store was handed %d records for %d publishes", len(recs), len(wants)), nil)
+		return
+	}
+	for i, r := range recs {
+		if r.Type != wants[i].typ || !jgen.JSONEqual(r.Data, []byte(wants[i].data)) {
+			run.Violation("record:retained-record-changed", fmt.Sprintf("a store that keeps the record it was handed until it writes it out: record %d reads {%s %s}, publish %d was {%s %s}", i, r.Type, r.Data, i, wants[i].typ, wants[i].data), map[string]any{"index": i})
+			return
+		}
+	}
+	run.Case("write-behind store", true)
 }
 
 // ---------------------------------------------------------------------------------------------
